@@ -26,8 +26,6 @@ type vsrvC08Desc struct {
 	Script    []string `json:"script"`
 }
 
-func vsrvPick[T any](rng *rand.Rand, xs ...T) T { return xs[rng.IntN(len(xs))] }
-
 // vsrvC08Plan builds the write pattern of one handler.
 func vsrvC08Plan(rng *rand.Rand) (ops []vsrvOp, total int) {
 	switch rng.IntN(6) {
@@ -368,7 +366,7 @@ func TestVerif_C08(t *testing.T) {
 	r.Assume("frame boundaries and fields are decoded by the independent h2ref reader; a client SETTINGS change binds the server only from its SETTINGS ACK in the server's byte stream, before that old and new values are both admissible (monotone: once a DATA frame proves a newer snapshot is in use, older ones are dropped); WINDOW_UPDATE counts from the moment the client wrote it; quiescence = testing/synctest.Wait")
 	r.Assume("the 'sent once a window is available' clause is decided at quiescent points only: a handler parked in Write/Flush, or returned, with body bytes outstanding while both shadow windows are > 0 is a violation")
 
-	n := r.N(1200, 40000)
+	n := r.N(400, 12000)
 	// a slice of the sessions runs with the package's serve-goroutine assertion enabled
 	vsrvGoroutineTracking(true)
 	r.CasesParallel("session-gotrack", n/20, 0, func(c *verifrt.Case) {
@@ -385,12 +383,12 @@ func TestVerif_C08(t *testing.T) {
 	r.CasesParallel("session-rfc7540", n/5, 0, func(c *verifrt.Case) {
 		vsrvC08Session(r, c, "rfc7540", 0)
 	})
-	r.Require("data_frames_checked", 5000)
-	r.Require("stream_window_hit_zero", 200)
-	r.Require("stream_window_reopened_and_used", 200)
+	r.Require("data_frames_checked", 3000)
+	r.Require("stream_window_hit_zero", 100)
+	r.Require("stream_window_reopened_and_used", 100)
 	r.Require("conn_window_hit_zero", 20)
 	r.Require("stream_window_negative_after_settings", 20)
-	r.Require("quiescent_points_evaluated", 1000)
-	r.Require("responses_completed", 500)
+	r.Require("quiescent_points_evaluated", 500)
+	r.Require("responses_completed", 200)
 	r.Require("blocked_on_closed_window_at_quiescence", 100)
 }
